@@ -406,6 +406,25 @@ def workload(ctx, repo):
                     ctx.case = case
                     ctx.ev("cases.century-boundaries")
                     run_case(ctx, repo, case)
+    # decimal-hour points between offsets whose hour difference and minute
+    # difference cancel as plain numbers (+15:00 -> +00:15 is -15 h, +15 min)
+    if ctx.worker == 0:
+        for src, dest in (((15, 0), (0, 15)), ((-15, -15), (0, -30)),
+                          ((0, 30), (30, 0)), ((45, 0), (0, 45)),
+                          ((0, 15), (15, 0)), ((0, -45), (-45, 0))):
+            for mode in R.MODES:
+                for rep in gen.REPS:
+                    kw = gen.date_kwargs(mode, rep, R.ymd_to_rd(
+                        mode, 2001, 3, 1))
+                    kw.update({"hour_of_day": 6,
+                               "hour_of_day_decimal": (0.5, 0.25, 0.0)[
+                                   len(rep) % 3]})
+                    kw.update(gen.zone_kwargs(src))
+                    case = {"op": "tz", "mode": mode, "p": kw,
+                            "dest": list(dest)}
+                    ctx.case = case
+                    ctx.ev("cases.cancelling-offset-parts")
+                    run_case(ctx, repo, case)
     # every ordered (source, destination) pair of a grid of offsets
     j = 0
     for src in gen.OFFSET_GRID:
